@@ -16,7 +16,7 @@ META = common.meta(
 
 def tasks(tier, seed):
     out = []
-    n = 60 if tier == 'quick' else 400
+    n = 60 if tier == 'quick' else common.thorough(400)
     for k in range(n):
         out.append(('vt.props.c05', 't3_case', {'seed': seed, 'k': k, 'backend': 'T3', 'd': 2 + k % 4,
                                                 'kind': ['real', 'complex'][k % 2], 'deficient': (k // 2) % 2}))
